@@ -304,7 +304,7 @@ func observe(ctx context.Context, db *cesium.DB, c tcase) []chanObs {
 	return out
 }
 
-func runOnce(c tcase, concurrent bool, skip [][]bool) (obs runObs) {
+func runOnce(c tcase, concurrent bool, skip [][]bool, order []int) (obs runObs) {
 	ctx := context.Background()
 	fs := xfs.NewMem()
 	db, err := openDB(fs, c)
@@ -366,7 +366,12 @@ func runOnce(c tcase, concurrent bool, skip [][]bool) (obs runObs) {
 			return
 		}
 	} else {
-		for ti := range c.Threads {
+		if order == nil {
+			for ti := range c.Threads {
+				order = append(order, ti)
+			}
+		}
+		for _, ti := range order {
 			runThread(ti)
 		}
 	}
@@ -405,7 +410,7 @@ func runCase(c tcase) result {
 		return runInjectCase(c)
 	}
 	r := result{ID: c.ID}
-	r.Conc = runOnce(c, true, nil)
+	r.Conc = runOnce(c, true, nil, nil)
 	// serial reference executes only the ops that reported success concurrently
 	skip := make([][]bool, len(c.Threads))
 	for ti := range c.Threads {
@@ -416,8 +421,67 @@ func runCase(c tcase) result {
 			}
 		}
 	}
-	r.Serial = runOnce(c, false, skip)
+	// the serial reference has no concurrency at all: no background GC either (a GC pass holds a
+	// resource on a channel, which makes a concurrent DeleteChannel fail legitimately)
+	cs := c
+	cs.GC = false
+	// The property asks for SOME serial order of the operations that reported success: try the
+	// thread orders until one executes every such operation successfully with the same content.
+	first := true
+	for _, order := range permutations(len(c.Threads), 24) {
+		so := runOnce(cs, false, skip, order)
+		if first {
+			r.Serial = so
+			first = false
+		}
+		if serialExplains(r.Conc, so) {
+			r.Serial = so
+			break
+		}
+	}
 	return r
+}
+
+func permutations(n int, limit int) [][]int {
+	var out [][]int
+	var rec func(cur []int, used []bool)
+	rec = func(cur []int, used []bool) {
+		if len(out) >= limit {
+			return
+		}
+		if len(cur) == n {
+			out = append(out, append([]int{}, cur...))
+			return
+		}
+		for i := 0; i < n; i++ {
+			if !used[i] {
+				used[i] = true
+				rec(append(cur, i), used)
+				used[i] = false
+			}
+		}
+	}
+	rec(nil, make([]bool, n))
+	return out
+}
+
+func sameObs(a, b []chanObs) bool {
+	ja, _ := json.Marshal(a)
+	jb, _ := json.Marshal(b)
+	return string(ja) == string(jb)
+}
+
+// serialExplains: every operation that succeeded concurrently also succeeds in this serial
+// order and the readable content is the same.
+func serialExplains(conc, ser runObs) bool {
+	for ti := range conc.Outcomes {
+		for oi := range conc.Outcomes[ti] {
+			if conc.Outcomes[ti][oi] == "ok" && (ti >= len(ser.Outcomes) || oi >= len(ser.Outcomes[ti]) || ser.Outcomes[ti][oi] != "ok") {
+				return false
+			}
+		}
+	}
+	return sameObs(conc.Mem, ser.Mem)
 }
 
 func main() {
